@@ -344,6 +344,7 @@ func (ms *Modules) Process() []error {
 	ms.mergedSubmodule = map[string]bool{}
 	ms.includes = map[*Module]bool{}
 	ms.ClearEntryCache()
+	ms.typeDict.forget()
 
 	errs := ms.process()
 	if len(errs) > 0 {
